@@ -39,6 +39,7 @@ type rtSpec struct {
 	L    int    `json:"L"`
 	TM   string `json:"tm,omitempty"`   // explicit .tm text (overrides rendering)
 	Alph []int  `json:"alph,omitempty"` // terminals used in inputs (default: all real terminals)
+	ErrTerm int `json:"errTerm"`        // terminal standing for the 'error' token (0: none)
 
 	// filled by rt-gen
 	Pkg      string   `json:"pkg"`
@@ -61,37 +62,51 @@ const rtAdapter = `
 {{define "onAfterParser"}}
 var verifShifts []int
 
+// One Parser is reused for every call (Init only once): parses must not leak state into each other.
+var (
+	verifP      Parser
+	verifInited bool
+	verifEvents []int
+	verifErrors []int
+	verifCancel func()
+	verifCancelAt int
+)
+
 // VerifParse runs one parse from the given input (entry state = input index) and reports what happened.
 func VerifParse(entry int, text string{{if .Options.Cancellable}}, cancelAtEvent int{{end}}) (ok bool, errOff, errEnd int, events, shifts, errors []int, panicMsg string) {
 	defer func() {
 		if r := recover(); r != nil {
 			panicMsg = "fmt".Sprint(r)
 			shifts = verifShifts
+			events, errors = verifEvents, verifErrors
+			verifInited = false
 		}
 	}()
 	var l Lexer
 	l.Init(text)
-	var p Parser
+	p := &verifP
 	verifShifts = verifShifts[:0]
-	events, errors = []int{}, []int{}
+	verifEvents, verifErrors = []int{}, []int{}
 {{- if .Options.Cancellable}}
 	ctx, cancel := "context".WithCancel("context".Background())
 	defer cancel()
+	verifCancel, verifCancelAt = cancel, cancelAtEvent
 	if cancelAtEvent == 0 {
 		cancel()
 	}
 {{- end}}
-	p.Init({{if .Parser.IsRecovering}}func(se SyntaxError) bool {
-		errors = append(errors, se.Offset, se.Endoffset)
-		return true
-	}{{end}}{{if .Parser.Types}}{{if .Parser.IsRecovering}}, {{end}}func(t NodeType, off, end int) {
-		events = append(events, int(t), off, end)
-{{- if .Options.Cancellable}}
-		if len(events)/3 == cancelAtEvent {
-			cancel()
-		}
-{{- end}}
-	}{{end}})
+	if !verifInited {
+		verifInited = true
+		p.Init({{if .Parser.IsRecovering}}func(se SyntaxError) bool {
+			verifErrors = append(verifErrors, se.Offset, se.Endoffset)
+			return true
+		}{{end}}{{if .Parser.Types}}{{if .Parser.IsRecovering}}, {{end}}func(t NodeType, off, end int) {
+			verifEvents = append(verifEvents, int(t), off, end)
+			if verifCancel != nil && len(verifEvents)/3 == verifCancelAt {
+				verifCancel()
+			}
+		}{{end}})
+	}
 	var err error
 	switch entry {
 {{- range $index, $inp := .Parser.Inputs}}{{if not $inp.Synthetic}}
@@ -102,6 +117,7 @@ func VerifParse(entry int, text string{{if .Options.Cancellable}}, cancelAtEvent
 		panicMsg = "no such input"
 	}
 	shifts = append([]int{}, verifShifts...)
+	events, errors = verifEvents, verifErrors
 	if err == nil {
 		return true, -1, -1, events, shifts, errors, ""
 	}
@@ -136,6 +152,10 @@ func (s *rtSpec) renderTM() string {
 	}
 	b.WriteString("\n:: lexer\n\nWS: /[ \\n]+/ (space)\n")
 	for t := 1; t < s.NT; t++ {
+		if t == s.ErrTerm {
+			b.WriteString("error:\n")
+			continue
+		}
 		fmt.Fprintf(&b, "%s: /%s/\n", termName(t), termChar(t))
 	}
 	if s.K > 1 {
@@ -179,6 +199,8 @@ func (s *rtSpec) renderTM() string {
 			var parts []string
 			symText := func(sym int) string {
 				switch {
+				case sym == s.ErrTerm && sym > 0:
+					return "error"
 				case sym < 0:
 					return "." + s.Markers[-1-sym]
 				case sym < s.NT:
@@ -350,6 +372,7 @@ type result struct {
 	Runs [][][]int   ` + "`json:\"runs\"`" + `   // per entry, per string (length-lexicographic rank): [accepted, errOff, errEnd]
 	Ev   [][][]int   ` + "`json:\"ev,omitempty\"`" + `
 	Sh   [][][]int   ` + "`json:\"sh,omitempty\"`" + `
+	Er   [][][]int   ` + "`json:\"er,omitempty\"`" + `
 	Bad  []string    ` + "`json:\"bad\"`" + `    // panics, hangs, non-syntax errors
 }
 
@@ -359,23 +382,23 @@ var parsers = map[string]parseFn{
 %s
 }
 
-func call(f parseFn, entry int, text string) (ok bool, off, end int, ev, sh []int, bad string) {
+func call(f parseFn, entry int, text string) (ok bool, off, end int, ev, sh, er []int, bad string) {
 	type out struct {
-		ok       bool
-		off, end int
-		ev, sh   []int
-		bad      string
+		ok         bool
+		off, end   int
+		ev, sh, er []int
+		bad        string
 	}
 	ch := make(chan out, 1)
 	go func() {
-		ok, off, end, ev, sh, _, pm := f(entry, text)
-		ch <- out{ok, off, end, ev, sh, pm}
+		ok, off, end, ev, sh, er, pm := f(entry, text)
+		ch <- out{ok, off, end, ev, sh, er, pm}
 	}()
 	select {
 	case o := <-ch:
-		return o.ok, o.off, o.end, o.ev, o.sh, o.bad
+		return o.ok, o.off, o.end, o.ev, o.sh, o.er, o.bad
 	case <-time.After(3 * time.Second):
-		return false, -3, -3, nil, nil, "hang"
+		return false, -3, -3, []int{}, []int{}, []int{}, "hang"
 	}
 }
 
@@ -402,7 +425,7 @@ func main() {
 		res := result{Pkg: j.Pkg, Bad: []string{}}
 		hangs := 0
 		for e := 0; e < j.NInputs; e++ {
-			var runs, evs, shs [][]int
+			var runs, evs, shs, ers [][]int
 			// all strings over the alphabet in length-lexicographic order
 			var cur []int
 			var rec func(depth int)
@@ -412,9 +435,12 @@ func main() {
 				for _, w := range level {
 					if hangs > 2 {
 						runs = append(runs, []int{0, -3, -3})
+						if j.Events {
+							evs, shs, ers = append(evs, []int{}), append(shs, []int{}), append(ers, []int{})
+						}
 						continue
 					}
-					ok, off, end, ev, sh, bad := call(f, e, render(w))
+					ok, off, end, ev, sh, er, bad := call(f, e, render(w))
 					if bad != "" {
 						if bad == "hang" {
 							hangs++
@@ -431,6 +457,7 @@ func main() {
 					if j.Events {
 						evs = append(evs, ev)
 						shs = append(shs, sh)
+						ers = append(ers, er)
 					}
 					if depth < j.L {
 						for _, t := range j.Alph {
@@ -447,6 +474,7 @@ func main() {
 			if j.Events {
 				res.Ev = append(res.Ev, evs)
 				res.Sh = append(res.Sh, shs)
+				res.Er = append(res.Er, ers)
 			}
 		}
 		enc.Encode(res)
@@ -471,7 +499,9 @@ func rtGen(args []string) error {
 		specs[i].Pkg = fmt.Sprintf("g%d", i)
 		if len(specs[i].Alph) == 0 {
 			for t := 1; t < specs[i].NT; t++ {
-				specs[i].Alph = append(specs[i].Alph, t)
+				if t != specs[i].ErrTerm {
+					specs[i].Alph = append(specs[i].Alph, t)
+				}
 			}
 		}
 	}
